@@ -16,12 +16,14 @@ open Gzx.Properties.C01 (refSymbol)
       * the codeword modules carry the interleaving of RECEIVED blocks — in every Reed-Solomon block at most
         ⌊ecPerBlock/2⌋ codewords (data or error correction) differ from what was written (`Received`), and
       * additionally any set `F` of FUNCTION-PATTERN modules is flipped, of which at most three lie in the first copy of
-        the format information, at most three in the second copy, and (version ≥ 7) at most three in the copy of the
-        version information that `ReadVersion` reads first — the other copy of the version information and all finder,
-        timing, alignment and dark modules may be flipped at will —,
+        the format information, at most three in the second copy, and (version ≥ 7) at most three in AT LEAST ONE of the
+        two copies of the version information — the other copy of the version information and all finder, timing,
+        alignment and dark modules may be flipped at will —,
     then `Decoder.Decode` (model) succeeds on the first attempt and returns exactly what the clean symbol returns: the
     parsed content, the level, the version and the ORIGINAL data codewords.
-    (The brief's "≤ 3 in each copy of the version information" is the special case `hv1` + any second copy.) -/
+    (The property's "≤ 3 in each copy of the version information" is a special case of `hv`: `ReadVersion` accepts a
+    copy only if it decodes to a version of the symbol's dimension, so an unreadable or misleading first copy cannot
+    override a good second one — `QRComp.versionCopyOK_ref`.) -/
 theorem qr_tolerates_combined_damage (T : Tables) (hT : TablesConform T) (hint : Hint)
     (v : Nat) (h1 : 1 ≤ v) (h40 : v ≤ 40) (ec : QRRef.EC) (mask : Nat) (hm : mask < 8) (bits : List Bool)
     (hfit : bits.length ≤ 8 * QRRef.dataCodewords v ec) (parsed : Parsed)
@@ -31,11 +33,12 @@ theorem qr_tolerates_combined_damage (T : Tables) (hT : TablesConform T) (hint :
     (F : List (Nat × Nat)) (hF : ∀ c ∈ F, QRRef.isFunction v c.1 c.2 = true)
     (hf1 : formatCoords1.countP (F.contains ·) ≤ 3)
     (hf2 : (formatCoords2 (17 + 4 * v)).countP (F.contains ·) ≤ 3)
-    (hv1 : 7 ≤ v → (versionCoords1 (17 + 4 * v)).countP (F.contains ·) ≤ 3) :
+    (hv : 7 ≤ v → (versionCoords1 (17 + 4 * v)).countP (F.contains ·) ≤ 3 ∨
+      (versionCoords2 (17 + 4 * v)).countP (F.contains ·) ≤ 3) :
     decode T rsQR hint (flipCells (matrixOf (QRRef.refMatrix v ec mask (QRDec.interleave recv))) F) =
       .ok ⟨parsed, toDecEC ec, v, QRRef.terminate (QRRef.dataCodewords v ec) bits, false⟩ :=
   decode_damaged T hT hint v h1 h40 ec mask hm bits hfit parsed hparse recv hrecv _
-    (damaged_of_flips v h1 h40 ec mask _ F hF hf1 hf2 hv1)
+    (damaged_of_flips v h1 h40 ec mask _ F hF hf1 hf2 hv)
 
 /-- "⇒ same result as the clean symbol", literally -/
 theorem qr_combined_damage_same_as_clean (T : Tables) (hT : TablesConform T) (hint : Hint)
@@ -47,14 +50,15 @@ theorem qr_combined_damage_same_as_clean (T : Tables) (hT : TablesConform T) (hi
     (F : List (Nat × Nat)) (hF : ∀ c ∈ F, QRRef.isFunction v c.1 c.2 = true)
     (hf1 : formatCoords1.countP (F.contains ·) ≤ 3)
     (hf2 : (formatCoords2 (17 + 4 * v)).countP (F.contains ·) ≤ 3)
-    (hv1 : 7 ≤ v → (versionCoords1 (17 + 4 * v)).countP (F.contains ·) ≤ 3) :
+    (hv : 7 ≤ v → (versionCoords1 (17 + 4 * v)).countP (F.contains ·) ≤ 3 ∨
+      (versionCoords2 (17 + 4 * v)).countP (F.contains ·) ≤ 3) :
     decode T rsQR hint (flipCells (matrixOf (QRRef.refMatrix v ec mask (QRDec.interleave recv))) F) =
       decode T rsQR hint (refSymbol v ec mask bits) := by
-  rw [qr_tolerates_combined_damage T hT hint v h1 h40 ec mask hm bits hfit parsed hparse recv hrecv F hF hf1 hf2 hv1,
+  rw [qr_tolerates_combined_damage T hT hint v h1 h40 ec mask hm bits hfit parsed hparse recv hrecv F hF hf1 hf2 hv,
     Gzx.Properties.C01.qr_roundtrip_bits T hT hint v h1 h40 ec mask hm bits hfit parsed hparse]
 
 /-- the general form: ANY matrix of the symbol's dimension that agrees with the reference symbol on the data cells and
-    reads, in the two format areas and (version ≥ 7) the first version area, words within three bits of the written
+    reads, in the two format areas and (version ≥ 7) one of the two version areas, words within three bits of the written
     ones (`QRComp.Damaged`) — whatever its other modules hold -/
 theorem qr_tolerates_combined_damage_matrix (T : Tables) (hT : TablesConform T) (hint : Hint)
     (v : Nat) (h1 : 1 ≤ v) (h40 : v ≤ 40) (ec : QRRef.EC) (mask : Nat) (hm : mask < 8) (bits : List Bool)
@@ -79,14 +83,15 @@ theorem qr_segments_tolerate_combined_damage (T : Tables) (hT : TablesConform T)
     (F : List (Nat × Nat)) (hF : ∀ c ∈ F, QRRef.isFunction v c.1 c.2 = true)
     (hf1 : formatCoords1.countP (F.contains ·) ≤ 3)
     (hf2 : (formatCoords2 (17 + 4 * v)).countP (F.contains ·) ≤ 3)
-    (hv1 : 7 ≤ v → (versionCoords1 (17 + 4 * v)).countP (F.contains ·) ≤ 3) :
+    (hv : 7 ≤ v → (versionCoords1 (17 + 4 * v)).countP (F.contains ·) ≤ 3 ∨
+      (versionCoords2 (17 + 4 * v)).countP (F.contains ·) ≤ 3) :
     decode T rsQR hint (flipCells (matrixOf (QRRef.refMatrix v ec mask (QRDec.interleave recv))) F) =
       .ok ⟨QRMulti.toParsed (QRMulti.run T.eci g {} items), toDecEC ec, v,
         QRRef.terminate (QRRef.dataCodewords v ec) (QRMulti.bitsOf v items), false⟩ := by
   have hn := QRMulti.countOK_of_fit_all v h1 h40 ec items hfit
   exact qr_tolerates_combined_damage T hT hint v h1 h40 ec mask hm _ hfit _
     (fun tail ht => QRMulti.parseStream_items T.eci v hint g items (fun it hit => ⟨hc it hit, hn it hit⟩) hg tail ht)
-    recv hrecv F hF hf1 hf2 hv1
+    recv hrecv F hF hf1 hf2 hv
 
 /-! ### non-vacuity -/
 
@@ -128,6 +133,42 @@ example : (∀ c ∈ flips7, QRRef.isFunction 7 c.1 c.2 = true) ∧
     (versionCoords1 (17 + 4 * 7)).countP (flips7.contains ·) = 3 ∧
     (versionCoords2 (17 + 4 * 7)).countP (flips7.contains ·) = 6 := by
   decide
+
+/-- a flip set that ruins the first-read copy of the version information (seven flips) and leaves the other within two -/
+def flips7b : List (Nat × Nat) :=
+  [(1, 8), (8, 7),  (8, 44), (38, 8), (40, 8),
+   (36, 5), (35, 5), (34, 5), (36, 4), (35, 2), (34, 0), (36, 0),
+   (5, 36), (0, 34)]
+
+example : (∀ c ∈ flips7b, QRRef.isFunction 7 c.1 c.2 = true) ∧
+    (versionCoords1 (17 + 4 * 7)).countP (flips7b.contains ·) = 7 ∧
+    (versionCoords2 (17 + 4 * 7)).countP (flips7b.contains ·) = 2 := by
+  decide
+
+/-- version 7-Q, alphanumeric "HR:", undamaged codewords (`C05.received_refl`), with `flips7` resp. `flips7b` applied:
+    instances of the theorem on a symbol that carries version information -/
+theorem damaged_v7_combined (F : List (Nat × Nat)) (hF : F = flips7 ∨ F = flips7b) :
+    (decode refTables rsQR .none
+        (flipCells (matrixOf (QRRef.refMatrix 7 .Q 5 (QRDec.interleave (refBlocks 7 .Q
+          (QRRef.terminate (QRRef.dataCodewords 7 .Q)
+            (QRRef.payloadBits 7 (QRRef.headerBits none false .alnum) .alnum 3 (QRRef.packAlnum [17, 27, 44]))))))) F)).map
+      (fun d => (d.parsed, d.ec, d.version)) =
+      .ok (⟨[.raw [72, 82, 58]], [], -1, -1, 1⟩, .Q, 7) := by
+  have hk := (countBits_eq 7).2.1
+  rw [qr_tolerates_combined_damage refTables refTables_conform .none 7 (by decide) (by decide) .Q 5 (by decide)
+    (QRRef.payloadBits 7 (QRRef.headerBits none false .alnum) .alnum 3 (QRRef.packAlnum [17, 27, 44])) (by decide)
+    ⟨[.raw ([17, 27, 44].map alnumCharOf)], [], -1, -1, 1⟩ (fun tail ht => by
+      show parseStream _ (QRRef.payloadBits 7 (QRRef.headerBits none false .alnum) .alnum
+        [17, 27, 44].length (QRRef.packAlnum [17, 27, 44]) ++ tail) 7 .none = _
+      rw [Gzx.Properties.C01.payload_segment 7 .alnum 1 hk, packAlnum_eq]
+      exact Gzx.Properties.C01.parse_alnum_stream _ 7 .none [17, 27, 44] (by decide) (by decide) tail ht)
+    _ (Gzx.Properties.C05.received_refl 7 .Q _ (terminate_lt _ _)) F
+    (by rcases hF with rfl | rfl <;> decide) (by rcases hF with rfl | rfl <;> decide)
+    (by rcases hF with rfl | rfl <;> decide)
+    (by intro _; rcases hF with rfl | rfl
+        · left; decide
+        · right; decide)]
+  rfl
 
 /-- beyond the promise: FOUR flipped bits in both format copies of a symbol are not covered — here the format
     information is read as a different (level, mask) -/
